@@ -14,7 +14,11 @@ import (
 
 func (w *world) fail(aspect string, want, got interface{}, format string, args ...interface{}) hx.Result {
 	r := w.r
-	return hx.Result{OK: false, Key: "X04/" + aspect + "/" + r.scenarioKey(), Want: want, Got: got,
+	sk := r.scenarioKey()
+	if strings.HasPrefix(aspect, "asks/") || strings.HasPrefix(aspect, "lookup/") || strings.HasPrefix(aspect, "error/") {
+		sk = r.protocolKey()
+	}
+	return hx.Result{OK: false, Key: "X04/" + aspect + "/" + sk, Want: want, Got: got,
 		What: fmt.Sprintf("RequestBackfill (room version %s, limit %d, from %v, servers %v): ", r.Ver, r.Limit, r.From, r.Servers) +
 			fmt.Sprintf(format, args...) + "; behaviour: " + w.describeAsks() + "; room: " + w.describe() +
 			"; concrete shapes: " + strings.Join(w.variants, ",")}
